@@ -198,8 +198,10 @@ func runReadOrder(c *Ctx, r *RuleRun) {
 			ofElem := func(v ssa.Value) bool {
 				return p.dependsOn(v, func(x ssa.Value) bool { return x == elem })
 			}
+			// the removal may live in a helper that is handed the flushed memtable
+			recv := func(v ssa.Value) bool { return p.through(v, received) }
 			ok := hasFact(u.ins, func(cm Cmp) bool {
-				return cm.Op == "==" && cm.Y != nil && ((ofElem(cm.X) && received(cm.Y)) || (ofElem(cm.Y) && received(cm.X)))
+				return cm.Op == "==" && cm.Y != nil && ((ofElem(cm.X) && recv(cm.Y)) || (ofElem(cm.Y) && recv(cm.X)))
 			})
 			r.Check(ok, p.FnName(u.fn), "immutables remove flushed", p.Pos(instrPos(u.ins)), "removes the element holding the memtable received from flushC",
 				"the element removed from DB.immutables is not tied to the memtable that was just flushed: with several memtables queued an unflushed one becomes unreachable and its committed keys read as not-found")
@@ -430,7 +432,12 @@ func runReadFlusher(c *Ctx, r *RuleRun) {
 				fv, _ := loadedField(u.X)
 				return fv == closed
 			}
-			q := PathQuery{P: p, Fn: f, Avoid: recv, Target: func(i ssa.Instruction) bool { return i == ins }}
+			if closed == nil {
+				r.Undecided(p.FnName(f), "flush after the flusher stopped", p.Pos(instrPos(call)), "anchor field DB.closed not found")
+				return
+			}
+			// the wait may live in a helper (stopFlusher): a call that receives from db.closed on every path counts
+			q := PathQuery{P: p, Fn: f, Avoid: NewMustDo(p, recv).Instr, Target: func(i ssa.Instruction) bool { return i == ins }}
 			r.Check(q.FindPath() == nil, p.FnName(f), "flush after the flusher stopped", p.Pos(instrPos(call)), "dominated by <-db.closed",
 				"a table is written outside the flusher while the flusher may still be flushing older memtables: the newest data can get the lower table index and lose lookups after a restart")
 		})
@@ -555,34 +562,57 @@ func runReadHit(c *Ctx, r *RuleRun) {
 			}
 			return false
 		}
-		eachInstr(get, func(ins ssa.Instruction) {
-			ret, ok := ins.(*ssa.Return)
-			if !ok || len(ret.Results) != 2 {
-				return
-			}
-			// `return v.Value, !v.Tombstone` says the same thing as the guarded form
-			if u, isNot := retOperand(ret, 1).(*ssa.UnOp); isNot && u.Op == token.NOT && isTomb(u.X) {
-				r.Hold(p.FnName(get), "own delete reads as not found", p.Pos(instrPos(ret)), "found = !Tombstone of the buffered entry")
-				return
-			}
-			if !isConstBool(retOperand(ret, 1), true) {
-				return
-			}
-			g := hasFact(ret, func(cm Cmp) bool {
-				if cm.Y != nil || cm.Op != "false" {
-					return false
+		entryT := p.Named("types", "Entry")
+		takesEntry := func(h *ssa.Function) bool {
+			for _, q := range h.Params {
+				t := q.Type()
+				if pt, ok := t.Underlying().(*types.Pointer); ok {
+					t = pt.Elem()
 				}
-				fv, _ := loadedField(cm.X)
-				if fv == tomb {
+				if n := p.isModuleNamed(t); n != nil && n == entryT {
 					return true
 				}
-				if fx, ok := cm.X.(*ssa.Field); ok {
-					return fx.X.Type().Underlying().(*types.Struct).Field(fx.Field) == tomb
+			}
+			return false
+		}
+		var foundReturns func(g *ssa.Function, depth int)
+		foundReturns = func(g *ssa.Function, depth int) {
+			eachInstr(g, func(ins ssa.Instruction) {
+				ret, ok := ins.(*ssa.Return)
+				if !ok || len(ret.Results) != 2 {
+					return
 				}
-				return false
+				// `return v.Value, !v.Tombstone` says the same thing as the guarded form
+				if u, isNot := retOperand(ret, 1).(*ssa.UnOp); isNot && u.Op == token.NOT && isTomb(u.X) {
+					r.Hold(p.FnName(get), "own delete reads as not found", p.Pos(instrPos(ret)), "found = !Tombstone of the buffered entry")
+					return
+				}
+				// the answer of a helper that is handed the buffered entry: the helper is held to the same rule
+				if ex, isEx := retOperand(ret, 1).(*ssa.Extract); isEx && depth < 3 {
+					if call, isCall := ex.Tuple.(*ssa.Call); isCall {
+						if h := call.Call.StaticCallee(); h != nil && takesEntry(h) && len(h.Blocks) > 0 {
+							if h == valueFn {
+								r.Hold(p.FnName(get), "own delete reads as not found", p.Pos(instrPos(ret)), "answered by types.Value, which is held to 'found only if not deleted'")
+							} else if h.Pkg == get.Pkg {
+								foundReturns(h, depth+1)
+							}
+						}
+					}
+					return
+				}
+				if !isConstBool(retOperand(ret, 1), true) {
+					return
+				}
+				g := hasFact(ret, func(cm Cmp) bool {
+					if cm.Y != nil || cm.Op != "false" {
+						return false
+					}
+					return isTomb(cm.X)
+				})
+				r.Check(g, p.FnName(get), "own delete reads as not found", p.Pos(instrPos(ret)), "a buffered entry is returned only when it is not a tombstone", "a key deleted earlier in the same transaction is returned as found")
 			})
-			r.Check(g, p.FnName(get), "own delete reads as not found", p.Pos(instrPos(ret)), "a buffered entry is returned only when it is not a tombstone", "a key deleted earlier in the same transaction is returned as found")
-		})
+		}
+		foundReturns(get, 0)
 	}
 }
 
@@ -859,13 +889,19 @@ func runOracleRestart(c *Ctx, r *RuleRun) {
 		return ok && bi.Name() == "min"
 	}
 	var base ssa.Value
-	for _, st := range storesToField(open, a.fNextTs) {
+	// the restart itself may live in a helper of Open: the checks run where nextTs is stored
+	holder := p.directHolder(open, p.storesField(a.fNextTs))
+	if holder == nil {
+		holder = open
+	}
+	_, _ = isMax, isMin
+	for _, st := range storesToField(holder, a.fNextTs) {
 		bo, ok := st.Val.(*ssa.BinOp)
 		k := int64(0)
 		if ok {
 			k, _ = constInt(bo.Y)
 		}
-		good := ok && bo.Op == token.ADD && k >= 1 && p.dependsOn(bo.X, fromM) && p.dependsOn(bo.X, fromL) && p.dependsOn(bo.X, isMax) && !p.dependsOn(bo.X, isMin)
+		good := ok && bo.Op == token.ADD && k >= 1 && p.geq(bo.X, factsAt(st), fromM, 0) && p.geq(bo.X, factsAt(st), fromL, 0)
 		r.Check(good, "Open", "nextTs = max(wal, tables) + 1", p.Pos(instrPos(st)), "strictly above both recovered maxima",
 			"nextTs is not set strictly above max(version recovered from the wals, version recovered from the tables): new commits can get timestamps at or below stored versions and lose against them")
 		if good {
@@ -873,19 +909,23 @@ func runOracleRestart(c *Ctx, r *RuleRun) {
 		}
 	}
 	if base == nil {
-		if len(storesToField(open, a.fNextTs)) == 0 {
+		if len(storesToField(holder, a.fNextTs)) == 0 {
 			r.Viol("Open", "nextTs restored", p.Pos(open.Pos()), "Open never restores oracle.nextTs")
 		}
 	} else {
 		for _, mk := range []*types.Var{a.fReadMark, a.fCommitMark} {
 			done := markCalls(p, mk, "Done")
 			n := 0
-			eachInstr(open, func(ins ssa.Instruction) {
+			eachInstr(holder, func(ins ssa.Instruction) {
 				if !done(ins) {
 					return
 				}
+				call, isCall := ins.(*ssa.Call)
+				if !isCall {
+					return
+				}
 				n++
-				arg := ins.(*ssa.Call).Call.Args[1]
+				arg := call.Call.Args[1]
 				r.Check(arg == base, "Open", mk.Name()+".Done(maxTs)", p.Pos(instrPos(ins)), "finished at exactly nextTs-1", mk.Name()+" is finished at a timestamp other than the recovered maximum: the first snapshot (nextTs-1) waits forever or reads before recovery's data")
 			})
 			if n == 0 {
@@ -1242,11 +1282,7 @@ func runCmpSib(c *Ctx, r *RuleRun) {
 		r.Check(s == ref, p.FnName(f), "step sequence", p.Pos(f.Pos()), s, fmt.Sprintf("the compactions disagree on their steps: %s does [%s], %s does [%s]", p.FnName(cs[0]), ref, p.FnName(f), s))
 		// older level is fed to the merge first: fetch(level deeper) before fetch(level shallower)
 		fetch := p.FnOr("", "levelManager", "fetch")
-		var fetches []*ssa.Call
-		if fetch != nil {
-			fetches = callsTo(p, f, fetch)
-		}
-		sort.Slice(fetches, func(i, j int) bool { return instrPos(fetches[i]) < instrPos(fetches[j]) })
+		fetches := fetchSitesOf(p, f, fetch)
 		if len(fetches) == 2 {
 			lv := func(v ssa.Value) (int64, bool) {
 				if k, ok := constInt(v); ok {
@@ -1262,9 +1298,9 @@ func runCmpSib(c *Ctx, r *RuleRun) {
 				}
 				return 0, false
 			}
-			a1, ok1 := lv(fetches[0].Call.Args[1])
-			a2, ok2 := lv(fetches[1].Call.Args[1])
-			r.Check(ok1 && ok2 && a1 > a2, p.FnName(f), "older level merged first", p.Pos(instrPos(fetches[0])), "the deeper (older) level's entries precede the shallower level's in the merge input, so the newer ones win ties",
+			a1, ok1 := lv(fetches[0].Level)
+			a2, ok2 := lv(fetches[1].Level)
+			r.Check(ok1 && ok2 && a1 > a2, p.FnName(f), "older level merged first", p.Pos(instrPos(fetches[0].Site)), "the deeper (older) level's entries precede the shallower level's in the merge input, so the newer ones win ties",
 				"the merge input lists the newer level before the older one: on equal versioned keys the older entry overwrites the newer")
 		} else {
 			r.Undecided(p.FnName(f), "older level merged first", p.Pos(f.Pos()), fmt.Sprintf("%d fetch call sites", len(fetches)))
@@ -1994,4 +2030,74 @@ func runSkipUpdate(c *Ctx, r *RuleRun) {
 		})
 	}
 	r.Check(noInsert, p.FnName(set), "existing key: no second node", p.Pos(set.Pos()), "the equal-key path returns without linking a new node", "the equal-key path does not return before a node is inserted: the list holds the same versioned key twice")
+}
+
+// fetchSite: one place where a function reads the tables of a level - a call of levelManager.fetch in the function
+// itself, or a call of a helper of the package that fetches with the level and the table set it is handed. Level and
+// Set are values of the function the site is in; Handle is the handle argument where fetch is called.
+type fetchSite struct {
+	Site   *ssa.Call
+	Fetch  *ssa.Call
+	Level  ssa.Value
+	Set    ssa.Value
+	Handle ssa.Value
+}
+
+func fetchSitesOf(p *Prog, f, fetch *ssa.Function) []fetchSite {
+	var out []fetchSite
+	if f == nil || fetch == nil {
+		return nil
+	}
+	eachInstr(f, func(ins ssa.Instruction) {
+		call, ok := ins.(*ssa.Call)
+		if !ok {
+			return
+		}
+		if callTo(p, call, fetch) != nil && len(call.Call.Args) > 2 {
+			out = append(out, fetchSite{call, call, call.Call.Args[1], call.Call.Args[2], call.Call.Args[len(call.Call.Args)-1]})
+			return
+		}
+		h := call.Call.StaticCallee()
+		if h == nil || h == f || h.Pkg != f.Pkg || len(h.Blocks) == 0 {
+			return
+		}
+		argOf := func(v ssa.Value) ssa.Value {
+			for i, q := range h.Params {
+				if ssa.Value(q) == v && i < len(call.Call.Args) {
+					return call.Call.Args[i]
+				}
+			}
+			return nil
+		}
+		for _, fc := range callsTo(p, h, fetch) {
+			if len(fc.Call.Args) <= 2 {
+				continue
+			}
+			st := fetchSite{Site: call, Fetch: fc, Handle: fc.Call.Args[len(fc.Call.Args)-1]}
+			lv := unconv(fc.Call.Args[1])
+			if _, isConst := lv.(*ssa.Const); isConst {
+				st.Level = lv
+			} else {
+				st.Level = argOf(lv)
+			}
+			// the parameter (not the receiver) the fetched element comes from
+			for i, q := range h.Params {
+				if i == 0 && h.Signature.Recv() != nil {
+					continue
+				}
+				if ssa.Value(q) == lv {
+					continue
+				}
+				if p.dependsOn(fc.Call.Args[2], func(x ssa.Value) bool { return x == ssa.Value(q) }) {
+					st.Set = argOf(q)
+					break
+				}
+			}
+			if st.Level != nil && st.Set != nil {
+				out = append(out, st)
+			}
+		}
+	})
+	sort.SliceStable(out, func(i, j int) bool { return instrPos(out[i].Site) < instrPos(out[j].Site) })
+	return out
 }
